@@ -27,3 +27,6 @@ def run(prog, rep):
     _rio3.run_memtype(prog, rep)
     from ..rules import r_key as _rkx
     _rkx.run_handles_only(prog, rep)
+    from ..rules import r_key as _rk13
+    _rk13.run_setter_verbatim(prog, rep, classes=('nix::SampledDimension', 'nix::RangeDimension', 'nix::SetDimension', 'nix::DataFrameDimension', 'nix::DataArray'), floor=8)
+    _rk13.run_store_verbatim(prog, rep)
